@@ -284,6 +284,7 @@ func (o *ovsdbClient) connect(ctx context.Context, reconnect bool) error {
 	if reconnect {
 		o.logger.V(3).Info("reconnected - restarting monitors")
 		for dbName, db := range o.databases {
+			verifPoint("connect.restart", dbName)
 			db.monitorsMutex.Lock()
 			defer db.monitorsMutex.Unlock()
 
@@ -893,6 +894,7 @@ func (o *ovsdbClient) MonitorCancel(ctx context.Context, cookie MonitorCookie) e
 	if reply.Error != "" {
 		return fmt.Errorf("error while executing transaction: %s", reply.Error)
 	}
+	verifPoint("cancel.reply", cookie.ID)
 	o.primaryDB().monitorsMutex.Lock()
 	defer o.primaryDB().monitorsMutex.Unlock()
 	delete(o.primaryDB().monitors, cookie.ID)
